@@ -336,6 +336,24 @@ func runH(c HCase) error {
 					ok = true
 				}
 			}
+			// a probe that connected just before the port was closed succeeds for the client without ever being
+			// accepted by the harness: if the port was open at some moment of the last probe interval, that explains it
+			upWin := false
+			for k, w := range tcpLog[i] {
+				if w.down {
+					continue
+				}
+				end := rg + time.Hour
+				if k+1 < len(tcpLog[i]) {
+					end = tcpLog[i][k+1].at
+				}
+				if w.at <= rg+jitter && end >= rg-1200*time.Millisecond && end >= since-jitter {
+					upWin = true
+				}
+			}
+			if !ok && upWin {
+				ok = true
+			}
 			if !ok {
 				return fmt.Errorf("%s: registered at %dms without a successful probe since %dms", desc, rg.Milliseconds(), since.Milliseconds())
 			}
